@@ -11,6 +11,7 @@ import QExPy.Model.Corr
 import Mathlib.Tactic.Ring
 import Mathlib.Tactic.FieldSimp
 import Mathlib.Tactic.Linarith
+import Mathlib.Tactic.SplitIfs
 
 namespace QExPy.Corr
 open QExPy
@@ -18,12 +19,24 @@ open QExPy
 theorem rpow_two'' (x : ℝ) : x ^ (((2 : ℕ) : ℝ)) = x * x := by
   rw [Real.rpow_natCast]; ring
 
+/-- the two bound tests say `1 < c ∨ c < −1`, in whatever order / spelling -/
+theorem boundBad_iff (c : ℝ) :
+    (Gen.corrBoundBad c = true ↔ (1 < c ∨ c < -1)) ∧ (Gen.covBoundBad c = true ↔ (1 < c ∨ c < -1)) := by
+  constructor <;>
+    simp only [Gen.corrBoundBad, Gen.covBoundBad, num_lt, num_le, num_neg, num_abs, num_ofNat,
+      Nat.cast_one, Bool.or_eq_true, Bool.and_eq_true, Bool.not_eq_true', Bool.not_eq_eq_eq_not,
+      Bool.not_true, decide_eq_true_eq, decide_eq_false_iff_not] <;>
+    first
+      | exact Iff.rfl
+      | grind
+
 theorem outOfRange_unfold (c : ℝ) :
     outOfRange c = (Num.lt one c || Num.lt c (Num.neg one)) := by
-  simp only [outOfRange, Gen.corrBoundBad, Corr.one]
+  rw [Bool.eq_iff_iff, outOfRange, (boundBad_iff c).1]
+  simp [Corr.one]
 
 theorem covBoundBad_eq (c : ℝ) : Gen.covBoundBad c = outOfRange c := by
-  simp only [outOfRange, Gen.corrBoundBad, Gen.covBoundBad]
+  rw [Bool.eq_iff_iff, outOfRange, (boundBad_iff c).1, (boundBad_iff c).2]
 
 theorem zeroSigmaGet_eq (w : Which) (a b : ℝ) :
     zeroSigmaGet w a b = (Num.isZero a || Num.isZero b) := by
@@ -62,11 +75,15 @@ theorem pyclip_eq (x lo hi : ℝ) : Py.min (Py.max x lo) hi = Stats.clip x lo hi
 
 theorem inferCov_eq (c a b : ℝ) :
     Gen.inferCov c a b = Stats.clip c (Num.neg (Num.mul a b)) (Num.mul a b) := by
-  simp only [Gen.inferCov, pyclip_eq]
+  simp only [Gen.inferCov, Py.min, Py.max, Stats.clip, num_lt, num_neg, num_div, num_mul, num_ofNat,
+    Nat.cast_one, decide_eq_true_eq] <;>
+  first | rfl | (split_ifs <;> first | rfl | linarith | (exfalso; linarith))
 
 theorem inferCorr_eq (c a b : ℝ) :
     Gen.inferCorr c a b = Stats.clip (Num.div c (Num.mul a b)) (Num.neg one) one := by
-  simp only [Gen.inferCorr, pyclip_eq, Corr.one]
+  simp only [Gen.inferCorr, Py.min, Py.max, Stats.clip, Corr.one, num_lt, num_neg, num_div, num_mul,
+    num_ofNat, Nat.cast_one, decide_eq_true_eq] <;>
+  first | rfl | (split_ifs <;> first | rfl | linarith | (exfalso; linarith))
 
 /-! the three model functions in the vocabulary of the theorems -/
 
